@@ -100,6 +100,9 @@ RECV_MODELS = [
     # the same borrower also lends in a bank with zero initial weight and in an isolated-tier bank (nothing may leave them inside a bracket)
     {"name": "recvz", "module": "MC_Recv.tla", "cfg": {"quick": "MC_RecvZQuick.cfg", "thorough": "MC_RecvZThorough.cfg"},
      "setup": "setups/recvmodelz.json", "init_from_setup": True, "timeout": {"quick": 900, "thorough": 10000}},
+    # the brackets on oracle-priced banks (Pyth spot / time-weighted prices with confidence, Switchboard collateral, stale and over-wide feeds)
+    {"name": "recvo", "module": "MC_RecvO.tla", "cfg": {"quick": "MC_RecvOQuick.cfg", "thorough": "MC_RecvOThorough.cfg"},
+     "setup": "setups/recvoracle.json", "init_from_setup": True, "timeout": {"quick": 900, "thorough": 10000}},
 ]
 
 
@@ -307,7 +310,7 @@ PROPS = {
     "C04": dict(risk_prop(["borrow", "withdraw", "kamino_withdraw", "drift_withdraw", "solend_withdraw", "tx"]), models=RISK_MODELS + RISKCFG_MODELS + STAKED_MODELS + VENUERISK_MODELS, drivers=RISK_DRIVERS + LEDGER_DRIVERS + STAKED_DRIVERS + KAMINO_DRIVERS + EDGE_DRIVERS),
     "C05": risk_prop2(["liquidate"], LIQ_DRIVERS + LEDGER_DRIVERS + STAKED_DRIVERS + EDGE_DRIVERS, models=RISK_MODELS + RISKCFG_MODELS + LIQ_MODELS + STAKED_MODELS + VENUERISK_MODELS),
     "C07": risk_prop2(["bankruptcy"], LIQ_DRIVERS + LEDGER_DRIVERS + EDGE_DRIVERS, models=RISK_MODELS + BKR_MODELS),
-    "C09": risk_prop2(["borrow", "withdraw", "liquidate", "bankruptcy", "pulse_health"], LIQ_DRIVERS + RISK_DRIVERS + LEDGER_DRIVERS + STAKED_DRIVERS + KAMINO_DRIVERS + EDGE_DRIVERS, models=RISK_MODELS + ORACLE_MODELS + RISKCFG_MODELS + STAKED_MODELS + VENUERISK_MODELS),
+    "C09": risk_prop2(["borrow", "withdraw", "liquidate", "bankruptcy", "pulse_health"], LIQ_DRIVERS + RISK_DRIVERS + LEDGER_DRIVERS + STAKED_DRIVERS + KAMINO_DRIVERS + EDGE_DRIVERS, models=RISK_MODELS + ORACLE_MODELS + RISKCFG_MODELS + STAKED_MODELS + VENUERISK_MODELS + RECV_MODELS[2:]),
     "C13": risk_prop2(["add_bank", "add_bank_staked", "add_bank_kamino", "add_bank_drift", "add_bank_solend", "init_staked_settings", "edit_staked_settings", "propagate_staked", "configure_bank", "configure_emode", "borrow", "withdraw", "pulse_health", "bankruptcy", "clone_emode"],
                       LIQ_DRIVERS + RISK_DRIVERS + ADMIN_DRIVERS + STAKED_DRIVERS + KAMINO_DRIVERS + EDGE_DRIVERS, models=RISK_MODELS + CONFIG_MODELS + RISKCFG_MODELS + STAKED_MODELS),
     "C14": risk_prop2(["deposit", "withdraw", "borrow", "repay", "liquidate", "bankruptcy", "propagate_fee"], LIQ_DRIVERS + RISK_DRIVERS + EDGE_DRIVERS, models=GATE_MODELS),
